@@ -1,6 +1,6 @@
 from common import LEAN_TB
 
-CFG = {'lean_modules': ['ObiVerif.Props.C06'],
+CFG = {'lean_modules': ['ObiVerif.Props.C06', 'ObiVerif.Props.C06I'],
  'gen': False,
  'thorough_seeds': 8,
  'rule': 'cases = (mode mem|disk, chunk count in {1,2,3,7,16,100} or any 1..N+1, workers 1..16, input batch size, --no-singleton, NA value in {"NA","","x1"}, 0..2 category keys, '
@@ -13,13 +13,21 @@ CFG = {'lean_modules': ['ObiVerif.Props.C06'],
          'repeated 25 times, the outcome depends on goroutine scheduling). `stage` cases: the real ISequenceSubChunk (one worker, one SequenceClassifier or '
          'AnnotationClassifier object) on a history of 1..6 batches of 0..170 records: sub-batches in push order, then the codes the classifier gives the records of '
          'the last coded batch and Value(code) of each (state across Reset). Every 20th multiset has > 100 classes, every 20th is almost dereplicated already '
-         '(4N sequences for N records), thorough: > 10000 classes; corpus: arrival orders around a Reset boundary with one category (mem/disk, ns 0/1). non-trivial = distinct well-formed case with at least 2 records',
- 'technique': 'Lean 4 theorems on a functional model of IUniqueSequence (hash chunks -> sub-chunks by sequence -> recursive sub-chunks by category -> '
+         '(4N sequences for N records), thorough: > 10000 classes; corpus: arrival orders around a Reset boundary with one category (mem/disk, ns 0/1). Third pass: `dist` cases (the real Distribute(HashClassifier(c), s) with batch size s in {0,1,2,3,5,7,5000, 1..N+1}: the batches every output delivers, in order), '
+         '`chunk mem|disk` cases (the real ISequenceChunk / ISequenceChunkOnDisk with CLIBatchSize s: the chunks pushed, ids in order; disk: in push order = lexical order of chunk_<code>.fastx, chunk counts 13/100/1000 so that it is not the numerical order, ids sorted inside a chunk, re-read records compared with the written ones), '
+         '`chunk diskfail` (TMPDIR missing / a regular file: outcome must be err), `pipe` cases (the transition system of the goroutines under a random schedule with bursts, 1..6 workers, against the real obiuniq), '
+         '`idem` cases (obiuniq of (obiuniq of the first k records ++ the others) on the real code, mem and disk), count=0 corpus ([0], [0,0], [0,3]: observation, model only), '
+         '`big` cases (generated from a spec: few classes / all distinct / heavy skew; quick 5e3..3e4 records, thorough 1e5..1e6 records in memory and 1e5..2e5 on disk, 1..16 workers). non-trivial = distinct well-formed case with at least 2 records',
+ 'technique': 'third pass: loop-level transcription of Distribute / ISequenceChunk / ISequenceChunkOnDisk with invariant proof (DistInv) that discharges ChunksOK, small-step '
+              'transition system of the goroutines of IUniqueSequence with counting invariant (Pipe.Inv), both executed by the driver against the real code (dist / chunk / pipe cases); '
+              'Lean 4 theorems on a functional model of IUniqueSequence (hash chunks -> sub-chunks by sequence -> recursive sub-chunks by category -> '
               'BioSequenceSlice.Merge) for every input list, every permutation of it and every chunk function + differential correspondence with the real '
               'obichunk.IUniqueSequence / obidemerge worker (memory and disk, 1..16 workers) and with the real ISequenceSubChunk + classifier objects (stage cases) '
               '+ recount oracle written with Go maps; loop-level transcription (classifier tables, Reset, coding loop, parametric unstable sort, cut loop, one chain per '
               'worker) proved to refine the functional model and executed next to it on every case (2 sorts, 2 chunk assignments; any difference = LAYERS-DIFFER)',
- 'level_text': 'Proved for all inputs with counts >= 1 (Props/C06.lean): uniq_keys (without --no-singleton the keys of the output are duplicate-free and are exactly '
+ 'level_text': 'Third pass (Props/C06.lean, last section; details and limits in level_note): distribute_exact, chunks_ok_mem, chunks_ok_disk (under RoundTrip of the file layer), '
+               'disk_mkdir_error, pipeline_delivers, pipeline_progress, pipeline_refines (no hypothesis about chunking or scheduling left for the memory mode), '
+               'zero_count_not_conserved, zero_count_order_dependent; Props/C06I.lean: uniq_idempotent (uniq (uniq xs ++ ys) ~ uniq (xs ++ ys) up to ObsEq, both directions), class_summary. Proved for all inputs with counts >= 1 (Props/C06.lean): uniq_keys (without --no-singleton the keys of the output are duplicate-free and are exactly '
                'the keys of the input), uniq_count (count = sum over the class of the key), uniq_merged (every requested merged_<k> map exists and gives per value the '
                'summed contribution of the class: the weight in the record\'s own merged_<k> map if it has one, else its count on its value or NA), '
                'uniq_annotations (an annotation is kept iff all members carry it with that value; id/sequence are those of a member), uniq_total (total conserved), '
@@ -35,29 +43,57 @@ CFG = {'lean_modules': ['ObiVerif.Props.C06'],
                'number of worker chains, every chunk and record arrival order: the outputs of the loop-level pipeline and of the functional model correspond one to one '
                'up to ObsEq, with and without --no-singleton; so all theorems above hold for the loop-level transcription). The model is tied to the code by running both on the same case lines: the canonical result '
                '(records sorted; key, count, kept annotations, requested merged_ maps) must agree byte for byte, in memory and on disk, for every worker count.',
- 'level_note': 'Trusted: Lean kernel; the transcription Model/Uniq.lean. The functional model has no goroutines: the independence from worker count, memory/disk mode and '
+ 'level_note': 'THIRD PASS, proved now (Props/C06.lean, bottom): distribute_exact (Distribute loop by loop - slices map, push at len == batchsize, final flush - for every batch size '
+               'and every partition of the input into batches: distinct codes, the output of a code delivers exactly the records of that code in input order, no empty batch), '
+               'chunks_ok_mem (the chunks the transcribed ISequenceChunk builds, pushed in ANY order (Go map range) and shared out between the workers in any way, satisfy ChunksOK: '
+               'the hypothesis of uniqL_refines is a theorem), chunks_ok_disk (ISequenceChunkOnDisk: one file per code holding the formatted batches in push order, files visited in '
+               'lexical name order, Load leaving the records of a file in any order (LoadOK; observed on the code: the reader cuts the file before its last record and Load appends the '
+               'batches in arrival order, stat chunk:disk:reordered-by-load) - ChunksOK holds whenever the file layer satisfies RoundTrip (read (write batches) = the records); '
+               'disk_mkdir_error (no temp dir: the result is the error), pipeline_delivers / pipeline_progress (Model/UniqSteps.lean: chunk channel shared by n workers, per-worker '
+               'pushes on iUnique interleaved, merge stage: every reachable final state has given every chunk to exactly one worker and delivered a permutation of uniqL; no deadlock with n >= 1), '
+               'pipeline_refines (composition: for every sort, batch size, batch partition, chunk push order, worker count and interleaving the delivered records correspond one to '
+               'one up to ObsEq to uniq, and the total count is conserved), zero_count_not_conserved / zero_count_order_dependent (why counts >= 1 is needed: decide on two inputs). '
+               'STILL PARTIAL / TIED ONLY: (a) RoundTrip is a hypothesis of chunks_ok_disk: its instance for the FASTA + JSON-header layer is C02\'s write_read_fasta_many_json, but the '
+               'embedding of Uniq.Rec into Header.Record JMems (count, attributes, merged_ maps as JSON members; Go strings as bytes) and the proof that it has a left inverse were NOT '
+               'written (time): the on-disk file layer is tied by the chunk disk cases (every re-read record compared with the written one: oracle chunk.reread) and the uniq disk '
+               'cases; the driver executes the identity layer (idLayer_roundTrip). (b) a worker of the transition system computes what its chain pushes when it sees the end of the '
+               'chunk channel and then pushes batch by batch: the interleaving BETWEEN chunk stage, workers and merge stage is arbitrary, the pipelining INSIDE a chain (a sequence of '
+               'single-goroutine stages linked by FIFO channels) is not re-modelled: it is C03\'s loop_stage_correct (a single-loop stage delivers its big-step result under every '
+               'interleaving); termination (a bound on the number of steps) is not proved, only deadlock freedom. (c) idempotence IS a theorem (Props/C06I.lean uniq_idempotent: for all chunk functions of the three runs, counts >= 1, --no-singleton off, the outputs of '
+               'uniq (uniq xs ++ ys) and of uniq (xs ++ ys) correspond one to one up to ObsEq; class_summary: the class of a key among the outputs of a first run has the total, the '
+               'merged_ contributions and the common annotations of the class among its inputs); it is tied by the idem cases (model flags NOT-IDEMPOTENT, oracle idem.differs on the real '
+               'code). With --no-singleton the statement is false (the first run removes records for good) and is not claimed. (d) the big cases (1e5..1e6 records) do not '
+               'run the list model: the driver recomputes classes / total / max from the generator spec with counters; the recount oracle checks every output record of the real code. '
+               '(e) negative counts are not representable (Nat) and not generated; count=0 is observed on [0], [0,0], [0,3] (code and model agree: a count-0 record comes out with count 1). '
+               '(f) taxid: BioSequence.Merge has no taxid-specific branch (taxid is an ordinary annotation: kept iff all members agree) - covered by uniq_annotations. '
+               'EARLIER NOTES: Trusted: Lean kernel; the transcription Model/Uniq.lean. The functional model has no goroutines: the independence from worker count, memory/disk mode and '
                'the scheduling is *proved* only in the form "the result does not depend on the order of the input nor on the chunk function" (uniq_perm), which covers every '
                'intra-class order the unstable sort.Sort of ISequenceSubChunk and the arrival order can produce; that the concurrent pipeline delivers every batch exactly '
-               'once is exercised by the harness (1..16 workers, both modes, watchdog) and by C03, not proved. ISequenceSubChunk IS now modelled loop by loop '
+               'once was only exercised by the harness until the third pass (now pipeline_delivers, with the limits of (b) above). ISequenceSubChunk IS now modelled loop by loop '
                '(Model/UniqLoop.lean: encode/decode/maxcode incl. AnnotationClassifier.Reset leaving maxcode, coding loop, sort as a parameter quantified over every '
                'permutation ordered by code, cut loop, state threaded over the batches of a stage, one chain per worker) and proved to refine the functional model '
                '(uniqL_refines); not proved: that the sub-batches leave in order of first appearance (order of classes is not claimed by the property; it is compared '
-               'in the stage cases), and that Go\'s sort.Sort is a ValidSorter (trusted: permutation ordered by Less). Distribute/ISequenceChunk[OnDisk] are still '
-               'modelled by their result (partition by hash code; hypothesis ChunksOK of the loop-level theorems). Observed, outside the property: '
+               'in the stage cases), and that Go\'s sort.Sort is a ValidSorter (trusted: permutation ordered by Less). Distribute/ISequenceChunk[OnDisk] were '
+               'modelled by their result until the third pass (now Model/UniqChunk.lean, see the top of this note). Observed, outside the property: '
                'AnnotationClassifier.Value(code) after a Reset panics or names the wrong value (maxcode is not reset while decode is truncated; model and code agree on '
                'it in the stage cases; obiuniq never calls Value on it); with count=0 records (outside the quantifier) the merged count depends on member order '
                '(SetCount clamps intermediate sums), so they are not generated. The FASTA/JSON round trip of the on-disk mode is property '
                'C02; here it is covered by correspondence only. The representative (id, unrequested merged_ maps, qualities) and the output order are not claimed.',
- 'trusted_base': LEAN_TB + ['recount oracle of harness/c06.go (Go maps)', 'sort.Sort returns a permutation of its input ordered by Less (ValidSorter)', 'hash/crc32.ChecksumIEEE = bitwise CRC-32 of Model/Uniq.lean (checked by the dispatch cases)',
+ 'trusted_base': LEAN_TB + ['Go channel semantics as rendered by Pipe.Step (a chunk sent on the shared channel is received by exactly one of the Split() readers)',
+                            'filepath.WalkDir visits names in lexical order (chunk disk cases compare the push order)',
+                            'recount oracle of harness/c06.go (Go maps)', 'sort.Sort returns a permutation of its input ordered by Less (ValidSorter)', 'hash/crc32.ChecksumIEEE = bitwise CRC-32 of Model/Uniq.lean (checked by the dispatch cases)',
                             'os temp directory semantics for the on-disk mode',
                             'github.com/goccy/go-json (its unsynchronised lazy decoder cache is warmed up single-threaded in the harness: concurrent first use by the '
                             'header-parsing workers kills about one fresh process in 10^4 with a nil dereference in internal/decoder/map.go — library defect, not C06)'],
- 'modelled': 'loop level: pkg/obiseq/class.go SequenceClassifier/AnnotationClassifier (encode, decode, maxcode; Code, Value, Reset, Clone), pkg/obichunk/subchunks.go '
+ 'modelled': 'third pass: pkg/obiiter/distribute.go Distribute (loop level), pkg/obichunk/chunks.go ISequenceChunk, chunk_on_disk.go ISequenceChunkOnDisk (tempDir error, '
+             'one file per code, find order, Load; file layer as a parameter), the goroutines of unique.go IUniqueSequence as a transition system (Model/UniqSteps.lean); loop level: pkg/obiseq/class.go SequenceClassifier/AnnotationClassifier (encode, decode, maxcode; Code, Value, Reset, Clone), pkg/obichunk/subchunks.go '
              'ISequenceSubChunk.ff statement by statement, the per-worker chains of IUniqueSequence.ff; functional level: pkg/obiseq/merge.go (StatsOn, StatsPlusOne, StatsOnValues.Merge, BioSequence.Merge, BioSequenceSlice.Merge), pkg/obiseq/class.go (HashClassifier, '
              'SequenceClassifier, AnnotationClassifier as equality of values), pkg/obichunk (ISequenceChunk[OnDisk] as grouping by hash code, ISequenceSubChunk, the ff '
              'closure of IUniqueSequence incl. the singleton shortcut and --no-singleton), pkg/obiiter/merge.go (IMergeSequenceBatch), pkg/obitools/obidemerge '
              '(MakeDemergeWorker)',
- 'assumptions': ['counts >= 1 and weights of input merged_ maps >= 1 (SetCount turns 0 into 1)',
+ 'assumptions': ['on-disk mode: the file layer round-trips the records (RoundTrip; C02) and the temporary directory exists',
+                 'a worker chain is a deterministic function of the chunks it receives (C03 loop_stage_correct for each single-loop stage)',
+                 'counts >= 1 and weights of input merged_ maps >= 1 (SetCount turns 0 into 1)',
                  'category / merge keys are plain annotation keys (not id, sequence, qualities, count, definition, nor merged_*), descriptors without ":" (weight = count)',
                  'an attribute key always carries values of one Go type (the model compares the fmt.Sprint rendering); merged_<k> annotations are maps of integers',
                  'attribute values without " and \\ in the generator (C02 defect under repair); sequences over acgt, 1..6 bases',
